@@ -232,5 +232,19 @@ _EXTRA = {
     "C18": " Also: pickles loaded in another interpreter under another hash seed, copies / deep copies of composites with constants (by-name view).",
     "C19": " Also: error-outcome configurations (dangling versions, case-mismatched references), deprecated dependencies with newer versions, twin roots with duplicated list entries, failed-call histories." + _HIST,
 }
+_EXTRA2 = {
+    "C03": " Reads aborted while documentation is pending, followed by documented definitions (doc-faults histories); comment texts that begin with '#' or blanks.",
+    "C04": " Exact values beyond the range of a double (2**1024 .. 10**400, 2**-1100) as final and intermediate results.",
+    "C06": " Texts that are not in a Unicode normal form.",
+    "C08": " Every structure with two or more fields is walked, as one object, at base sets the approximate set equality cannot tell apart.",
+    "C10": " A nested namespace repeating the root's name, root designated by bare name.",
+    "C11": " One of three minor versions edited in place between calls of one process (minor-version-edits histories).",
+    "C12": " ASCII characters next to lone surrogates.",
+    "C14": " Floating-point members in the revision alphabets.",
+    "C15": " Absolute roots with targets relative to every working directory must be read (repair b8a7a3e); a file under exactly one of several same-named roots from every working directory.",
+    "C17": " String literals that denote line breaks through escapes.",
+    "C18": " Distinct bodies under one name and version, and their containers that collide under the approximate set equality.",
+    "C19": " Every small configuration also under strict=True.",
+}
 for _c in CHECKS:
-    _c["text"] += _EXTRA.get(_c["property_id"], "")
+    _c["text"] += _EXTRA.get(_c["property_id"], "") + _EXTRA2.get(_c["property_id"], "")
